@@ -63,3 +63,17 @@ Proof.
   - rewrite (repr_contents _ _ _ RR). intros Hin.
     rewrite app_assoc in ND. apply NoDup_remove_2 in ND. apply ND. rewrite app_nil_r. exact Hin.
 Qed.
+
+(* ---------- extend when the iterator (or the Clone behind extend_from_slice's iterator) panics after
+   j items: the loop had pushed exactly those j items, one at a time, length bumped after each write ---------- *)
+Theorem extend_panic_spec e v c hint xs j v' :
+  repr e v c -> extend_iter e v hint (firstn j xs) = Ret v' ->
+  repr e v' (c ++ firstn j xs) /\
+  (* and going on from there is the whole operation: the panic state is a state of the normal run *)
+  extend_iter e v hint xs =
+    fold_left (fun acc x => match acc with Panic k => Panic k | Ret w => push e w x end) (skipn j xs) (Ret v').
+Proof.
+  intros R E. split; [exact (extend_iter_spec e v c hint _ v' R E)|].
+  unfold extend_iter in *. destruct (reserve e v hint false) as [v1|k]; [|discriminate].
+  rewrite <- (firstn_skipn j xs) at 1. rewrite fold_left_app, E. reflexivity.
+Qed.
